@@ -160,6 +160,34 @@ def diagnose(v, rejected, byrun, plans, d):
                     replay_name="plan%d_run%d.json" % (pl["id"], k))
 
 
+def binding_selftest(v, rows, plans, d):
+    """Teeth of the binding: recorded runs with one line dropped / one field changed must be rejected."""
+    byrun = {}
+    for r_ in rows:
+        byrun.setdefault(r_["run"], []).append(r_)
+    src = next((evs for evs in byrun.values() if any(e["ev"] == "ErrForwarded" for e in evs)
+                and any(e["ev"] == "Close" for e in evs)), None)
+    if src is None:
+        raise vlib.MachineryError("binding self-test: no run with a forwarded error recorded")
+    variants = []
+
+    def variant(f):
+        evs = [dict(e, run=900000 + len(variants)) for e in src]
+        variants.append(f(evs))
+
+    variant(lambda evs: [e for e in evs if e["ev"] != "ErrForwarded"])                       # hook event dropped
+    variant(lambda evs: [dict(e, cls="nil", c="", p=0) if e["ev"] == "RunReturn" else e for e in evs])  # success claimed
+    variant(lambda evs: [e for e in evs if e["ev"] != "WaitDone"])                           # onWaitDone not seen
+    variant(lambda evs: [e for i, e in enumerate(evs) if not (e["ev"] == "Close" and
+                                                            i == min(j for j, x in enumerate(evs) if x["ev"] == "Close"))])
+    variant(lambda evs: [dict(e, n=1) if e["ev"] == "End" else e for e in evs])              # a mock Run still active
+    flat = [e for evs in variants for e in evs]
+    acc, n, _, rej = validate(v, flat, plans, os.path.join(d), workers=1, report=False)
+    if acc != 0:
+        raise vlib.MachineryError("binding self-test: %d of %d corrupted traces were accepted by TracePoolRun" % (acc, n))
+    return n
+
+
 def run(tier, v):
     thorough = tier == "thorough"
     vlib.spec_copy()
@@ -222,6 +250,9 @@ def run(tier, v):
     stats = json.loads(p.stdout.strip().splitlines()[-1])
     rows = vlib.read_ndjson(out)
     accepted, nruns, tstates, rejected = validate(v, rows, plans, d, workers=ncpu)
+    corrupted = 0
+    if thorough and not rejected:
+        corrupted = binding_selftest(v, rows, plans, d)
     byplan = {}
     for r_ in rows:
         if r_["ev"] == "Plan":
@@ -252,7 +283,7 @@ def run(tier, v):
         "samples": samples,
         "fault_plans": len(plans), "plans_run": len(byplan), "engine_runs": nruns, "rejected_runs": len(rejected),
         "hangs": stats["hangs"], "trace_events": len(rows), "trace_validation_states": tstates,
-        "run_outcomes": outcomes,
+        "run_outcomes": outcomes, "corrupted_traces_rejected": corrupted,
         "design_configs": [main_cfg] + [c for c, _ in lives],
         "negative_controls": [c for c, _, _ in NEGATIVE],
         "exhaustive": False,
